@@ -3,6 +3,8 @@ use crate::rt::{Actor, DetResult, Rng};
 
 pub mod mq_mpsc;
 pub mod mq_spsc;
+pub mod ch_util;
+pub mod ch_mpsc;
 pub mod mutex;
 pub mod sem;
 pub mod syncflag;
@@ -24,6 +26,7 @@ pub struct Built {
 pub fn build_det(family: &str, rng: &mut Rng, tier: u32) -> Option<Built> {
     match family {
         "mutex" => Some(mutex::build(rng, tier)),
+        "ch_mpsc" => Some(ch_mpsc::build(rng, tier)),
         "sem" => Some(sem::build(rng, tier)),
         "syncflag" => Some(syncflag::build(rng, tier)),
         "mq_mpsc" => Some(mq_mpsc::build(rng, tier)),
@@ -33,7 +36,7 @@ pub fn build_det(family: &str, rng: &mut Rng, tier: u32) -> Option<Built> {
 }
 
 pub fn det_families() -> Vec<&'static str> {
-    vec!["mutex", "sem", "syncflag", "mq_mpsc", "mq_spsc"]
+    vec!["ch_mpsc", "mutex", "sem", "syncflag", "mq_mpsc", "mq_spsc"]
 }
 
 pub mod live_park;
